@@ -14,7 +14,7 @@ from .. import arr as A
 from ..report import Finding
 from .common import *
 from .equiv import *
-from .convspec import option_box
+from .convspec import option_box, sampled_options, _pick
 
 
 def worker(job):
@@ -142,6 +142,15 @@ def run(ctx):
         for padding, stride, rd, ld, flags in option_box(D, Nb, symmetric_only=True, unit_stride=True):
             rdt = (rd,) * D if isinstance(rd, int) else tuple(rd)
             jobs.append((ctx.repo, D, Nb, (3,) * D, 1, 1, 0, 1, flags, padding, rdt, ld, ()))
+    # pseudo-random members of the full option space (symmetric paddings, unit stride), a random extra group element each
+    for D in (2, 3):
+        ng = 8 if D == 2 else 48
+        for i, o in enumerate(sampled_options(D, (500 if D == 2 else 150) if th else (30 if D == 2 else 8), "C01", symmetric_only=True, unit_stride=True, kmax=3 if D == 2 else 2, max_cost=20000)):
+            if o["even_must_reject"]:
+                continue
+            fl = (o["flags"],) * D if isinstance(o["flags"], bool) else tuple(o["flags"])
+            rdt = (o["rd"],) * D if isinstance(o["rd"], int) else tuple(o["rd"])
+            jobs.append((ctx.repo, D, o["N"], o["M"], o["ki"], o["kf"], _pick((0, 1), "pi", i), _pick((0, 1), "pf", i), fl, o["padding"], rdt, o["ld"], (_pick(tuple(range(1, ng)), "g", D, i),)))
     by = {}
     for job, r in ctx.pairs(worker, jobs):
         cfg = r["cfg"]
